@@ -176,7 +176,7 @@ def run(report, replay=None):
         inputs.append(('soup', '', soup(rng)))
     for _ in range(1500 * scale):
         inputs.append(('soup', '', expr_soup(rng)))
-    valid = [gen_lang.make_record(0, lang_props.hash_seed(report.seed, 'c06', i), rng.choice(['general', 'routines', 'loops', 'matrix', 'print']), 18)['text']
+    valid = [gen_lang.make_record(0, lang_props.hash_seed(report.seed, 'c06', i), rng.choice(['general', 'routines', 'loops', 'matrix', 'print', 'nested']), 18)['text']
              for i in range(60 * scale)]
     for _ in range(1500 * scale):
         inputs.append(('mutant', '', mutate(rng.choice(valid), rng)))
